@@ -111,6 +111,10 @@ def ev_expr(e, args):
         return (ev_expr(e[1], args) << e[2]) % W
     if t == "or":       # ("or", e, c)
         return ev_expr(e[1], args) | (e[2] % W)
+    if t == "sum":      # ("sum", e1, e2): e1 + e2
+        return (ev_expr(e[1], args) + ev_expr(e[2], args)) % W
+    if t == "split":    # ("split", e): the word e, written to memory with its low byte separately (only inside "words" keys)
+        return ev_expr(e[1], args)
     raise ValueError(e)
 
 
@@ -136,7 +140,9 @@ def slot_of(loc, args):
 def expr_symbolic(e):
     if e[0] == "words":
         return any(expr_symbolic(w) for w in e[2])
-    return e[0] == "a" or (e[0] in ("and", "mul", "addc", "shl", "or") and expr_symbolic(e[1]))
+    if e[0] == "sum":
+        return expr_symbolic(e[1]) or expr_symbolic(e[2])
+    return e[0] == "a" or (e[0] in ("and", "mul", "addc", "shl", "or", "split") and expr_symbolic(e[1]))
 
 
 def loc_symbolic(loc):
@@ -212,6 +218,10 @@ def emit_expr(e):
         return emit_expr(e[1]) + [("push", e[2]), "SHL"]
     if t == "or":
         return emit_expr(e[1]) + [("push", e[2] % W), "OR"]
+    if t == "sum":
+        return emit_expr(e[1]) + emit_expr(e[2]) + ["ADD"]
+    if t == "split":
+        return emit_expr(e[1])
     raise ValueError(e)
 
 
@@ -229,6 +239,11 @@ def emit_loc(loc):
             items = emit_loc(loc[2])
             for i, w in enumerate(loc[1][2]):
                 r = min(32, kb - 32 * i)
+                if w[0] == "split" and r == 32:
+                    # the way solc lays out packed / ABI-encoded keys: the word, then its low byte once more with MSTORE8 — memory is
+                    # unchanged, but the SEVM sees Concat(Extract(255, 8, w), Extract(7, 0, w)) (which `normalize` folds back)
+                    items += emit_expr(w) + ["DUP1", ("push", KEYBUF + 32 * i), "MSTORE", ("push", KEYBUF + 32 * i + 31), "MSTORE8"]
+                    continue
                 items += emit_expr(w) + ([("push", 256 - 8 * r), "SHL"] if r < 32 else []) + [("push", KEYBUF + 32 * i), "MSTORE"]
             return items + [("push", KEYBUF + kb), "MSTORE", ("push", kb + 32), ("push", KEYBUF), "SHA3"]
         items = emit_loc(loc[2]) + emit_expr(loc[1])
@@ -438,6 +453,12 @@ class LocGen:
                     ws = tuple(("a", r.randrange(self.nargs)) if (self.nargs and r.random() < 0.5) else ("c", r.choice([0, 1, 2])) for _ in range(nw))
                     if not CONCRETE_PACKED_OK and self.nargs and not any(expr_symbolic(w) for w in ws):
                         ws = (("a", r.randrange(self.nargs)),) + ws[1:]
+                    if self.nargs >= 2 and r.random() < 0.3:
+                        # one full key word computed as a sum and written with its low byte separately (MSTORE, then MSTORE8), the way
+                        # solc lays out packed / ABI-encoded keys: the preimage holds Concat(Extract(255,8,k), Extract(7,0,·)+Extract(7,0,·))
+                        j = r.randrange(ty[1] // 32) if ty[1] >= 32 else 0
+                        i1, i2 = r.sample(range(self.nargs), 2)
+                        ws = ws[:j] + (("split", ("sum", ("a", i1), ("a", i2))),) + ws[j + 1:]
                     key = ("words", ty[1], ws)
                 elif ty[1] != 32 and not expr_symbolic(key) and self.nargs:
                     # a packed key whose whole preimage is concrete: known findings KEY_PACKED (solidity layout, repaired in /repo) and
@@ -1220,6 +1241,25 @@ def partial_key_case(shape, transient=False):
                 name=f"partial-key-{shape}" + ("-transient" if transient else ""))
 
 
+def split_word_cases():
+    """96- and 128-byte preimages whose first / middle key word k = a0 + a1 is written with its low byte separately: locations that
+    differ only in the words FOLLOWING that word (another key word, the slot) are different slots; the same location through
+    the plain spelling of k is the same slot"""
+    k = ("sum", ("a", 0), ("a", 1))
+    sp = ("split", k)
+    L = lambda words, slot: long_key(32 * len(words) + 32, words, ("lit", slot))
+    out = []
+    out.append(Prog([("sstore", L([sp, ("a", 2)], 1), ("c", 0x11)), ("sstore", L([sp, ("a", 2)], 2), ("c", 0x22)), ("sload", L([sp, ("a", 2)], 1)),
+                     ("sload", L([k, ("a", 2)], 2)), ("sstore", L([sp, ("c", 7)], 1), ("c", 0x33)), ("sload", L([sp, ("a", 2)], 1)), ("sload", L([k, ("c", 7)], 1)),
+                     ("tstore", L([sp, ("a", 2)], 1), ("c", 0x44)), ("tload", L([sp, ("a", 2)], 2)), ("tload", L([k, ("a", 2)], 1))], 3,
+                    name="split-word-first-of-96-byte-preimage"))
+    out.append(Prog([("sstore", L([("a", 2), sp, ("c", 5)], 1), ("c", 0x11)), ("sstore", L([("a", 2), sp, ("c", 6)], 1), ("c", 0x22)),
+                     ("sstore", L([("a", 2), sp, ("c", 5)], 2), ("c", 0x33)), ("sload", L([("a", 2), sp, ("c", 5)], 1)), ("sload", L([("a", 2), k, ("c", 6)], 1)),
+                     ("sload", L([("a", 2), k, ("c", 5)], 2)), ("sload", L([sp, sp, ("a", 2)], 1))], 3,
+                    name="split-word-middle-of-128-byte-preimage"))
+    return out
+
+
 def three_ways_cases():
     out = []
     # mapping element with a struct-member offset: runtime hash + 1, 1 + runtime hash, PUSH32 (hash + 1)
@@ -1283,6 +1323,8 @@ def core_directed():
                       ("sload", ("map", k64, ("off", ("arr", ("lit", 0)), ("and", ("a", 1), 3), True), 64))], 2,
                      name="long-key-concrete-last-word-fused-with-hashed-base"), KEY_GNEST + "@generic"))
     for p in branch_prefix_cases():
+        out.append((p, None))
+    for p in split_word_cases():
         out.append((p, None))
     # key words that are part symbolic / part concrete against the all-concrete spelling
     for i, shape in enumerate(partial_key_shapes()):
@@ -1793,6 +1835,91 @@ def direct_decode_cases(ctx, variant):
     return out
 
 
+def normalize_family(ctx):
+    """sevm.normalize on Concat shapes, directly: the result must have the same width and the same value under random valuations
+    (the model takes `normalize` as a meaning-preserving parameter).  Shapes: the byte-split word
+    Concat(Extract(255, 8, op(x, y)), op(Extract(7, 0, x), Extract(7, 0, y))) that normalize folds back into op(x, y), in first / middle /
+    last position among other operands (symbols, constants, hashes, other split words, near-miss pairs that must NOT fold)."""
+    import z3
+    from vlib.zeval import Evaluator
+    from halmos.sevm import normalize
+
+    rng = ctx.rng
+    D = _engine()
+    x, y, a, b = (z3.BitVec(n, 256) for n in ("a0", "a1", "a2", "a3"))
+    ops = {"add": lambda p, q: p + q, "sub": lambda p, q: p - q, "mul": lambda p, q: p * q, "and": lambda p, q: p & q,
+           "or": lambda p, q: p | q, "xor": lambda p, q: p ^ q}
+
+    def split(op, p, q):
+        return [z3.Extract(255, 8, ops[op](p, q)), ops[op](z3.Extract(7, 0, p), z3.Extract(7, 0, q))]
+
+    def near_miss(p, q):     # looks similar, must stay: different operands / different cut
+        k = rng.randrange(3)
+        if k == 0:
+            return [z3.Extract(255, 8, p + q), z3.Extract(7, 0, p) + z3.Extract(7, 0, a)]
+        if k == 1:
+            return [z3.Extract(255, 16, p + q), z3.Extract(15, 0, p) + z3.Extract(15, 0, q)]
+        return [z3.Extract(255, 8, p + q), z3.Extract(7, 0, p)]
+
+    def other():
+        k = rng.randrange(5)
+        return [[a], [b], [z3.BitVecVal(rng.choice([0, 1, 2, 7, W - 1]), 256)], [z3.BitVecVal(rng.randrange(256), 8)],
+                [z3.Extract(159, 0, a)]][k]
+
+    n = ctx.scale(150, 2000)
+    for i in range(n):
+        nseg = rng.randrange(1, 6)
+        segs, descr = [], []
+        for _ in range(nseg):
+            k = rng.random()
+            if k < 0.45:
+                op = rng.choice(sorted(ops))
+                p, q = rng.sample([x, y, a, b], 2)
+                segs += split(op, p, q)
+                descr.append("split-" + op)
+            elif k < 0.6:
+                segs += near_miss(*rng.sample([x, y, a, b], 2))
+                descr.append("near-miss")
+            else:
+                segs += other()
+                descr.append("other")
+        if len(segs) < 2:
+            segs += other()
+            descr.append("other")
+        t = z3.Concat(*segs)
+        # z3py builds left-nested binary Concats; halmos' memory reads give n-ary ones: flatten through simplify-free rebuild
+        flat = z3.BitVecRef(z3.Z3_mk_concat(t.ctx_ref(), segs[0].as_ast(), segs[1].as_ast()), t.ctx)
+        for sg in segs[2:]:
+            flat = z3.BitVecRef(z3.Z3_mk_concat(t.ctx_ref(), flat.as_ast(), sg.as_ast()), t.ctx)
+        for form, term in (("nested", flat), ("nary", z3.simplify(z3.Concat(*[z3.BitVec(f"q{j}", sg.size()) for j, sg in enumerate(segs)])))):
+            if form == "nary":       # an n-ary Concat node with the real operands substituted in
+                term = z3.substitute(term, *[(z3.BitVec(f"q{j}", sg.size()), sg) for j, sg in enumerate(segs)])
+            try:
+                out = normalize(term)
+            except Exception as e:  # noqa: BLE001
+                ctx.violation(f"C08|normalize|exception:{type(e).__name__}", f"normalize raised {e!r:.120} on {str(term)[:200]}", {"term": term.sexpr()[:2000]})
+                continue
+            shape = "+".join(descr)
+            ctx.count("normalize:" + form + ":args=" + str(min(term.num_args(), 9)))
+            ctx.case(("normalize", form, term.sexpr()))
+            if out.decl().name() != "concat" or out.num_args() < term.num_args():
+                ctx.count("normalize:folded:" + form)
+            if out.size() != term.size():
+                pos = "first" if descr[0].startswith("split") else "middle-or-last"
+                ctx.violation(f"C08|normalize|width-changed|split-word-{pos}|{form}",
+                              f"sevm.normalize changed the width of a {term.size()}-bit Concat to {out.size()} bits (operands after a folded "
+                              f"byte-split word are lost): shape {shape}: {str(term)[:300]} -> {str(out)[:200]}",
+                              {"term": term.sexpr()[:3000], "normalized": out.sexpr()[:3000], "shape": shape})
+                continue
+            for _ in range(3):
+                env = {f"a{j}": rng.choice([0, 1, 0xFF, 0x100, W - 1, rng.randrange(W)]) for j in range(4)}
+                ev = Evaluator(dict(env), default_uf=D._default_uf)
+                if int(ev(term)) != int(ev(out)):
+                    ctx.violation(f"C08|normalize|value-changed|{form}", f"sevm.normalize changed the value of {str(term)[:300]} (shape {shape}) under {env}",
+                                  {"term": term.sexpr()[:3000], "normalized": out.sexpr()[:3000], "env": {k: hex(v) for k, v in env.items()}})
+                    break
+
+
 class _Fixed:
     """rng stand-in: every initial value is `v`"""
 
@@ -2138,6 +2265,9 @@ def correspond(ctx):
                           f"[symbolic storage] with an arbitrary initial storage the loaded values differ from the EVM: "
                           f"{json.dumps({k: v for k, v in info.items() if k != 'evm' or isinstance(v, list)}, default=str)[:600]}",
                           replay_body(prog, "solidity", dict(info, symbolic_storage=True)))
+
+    # ---------------------------------------------------------------- normalize on Concat shapes, directly
+    normalize_family(ctx)
 
     # ---------------------------------------------------------------- 5. direct decoder cases
     for layout, sevm, ex, t, vals in direct_decode_cases(ctx, variant):
